@@ -19,7 +19,7 @@ r=json.load(open(d+'/out.json'))
 print('verdict',r['verdict'],'error',r.get('error'),'steps',r['steps'],'simtime',r['sim_time_s'],'hash',r['log_hash'])
 for v in r.get('violations',[]): print('VIOL',v)
 print('knobs',{k:v for k,v in r['knobs'].items() if v})
-print('probes',r['probes']); print('checks',r['checks']); print('counters',r['counters'])
+print('sample',r.get('sample')); print('probes',r['probes']); print('checks',r['checks']); print('counters',r['counters'])
 g=sys.argv[2] if len(sys.argv)>2 else None
 mode=os.environ.get('DBG','frp')
 lines=r.get('frp_log',[]) if mode=='frp' else r.get('log',[])
